@@ -542,6 +542,7 @@ static bool compile_module_introspection(CG *cg, const char *name) {
 /* ── Expression compilation ─────────────────────────────────────── */
 
 static void compile_expr(CG *cg, ASTNode *node);
+#define MAX_NESTED_FN_DEPTH 32
 static void compile_stmt(CG *cg, ASTNode *node);
 
 /* Handle built-in function calls. Returns true if handled, false if not a builtin. */
@@ -2357,6 +2358,17 @@ static void compile_stmt(CG *cg, ASTNode *node) {
         if (node->as.function.is_extern) break;
 
         const char *name = node->as.function.name;
+
+        /* Each level keeps a full snapshot of the compiler state on the C stack */
+        {
+            int nest_depth = 0;
+            for (CG *q = cg->parent; q; q = q->parent) nest_depth++;
+            if (nest_depth >= MAX_NESTED_FN_DEPTH) {
+                cg_error(cg, node->line, "function '%s' is nested too deeply (more than %d levels)",
+                         name ? name : "?", MAX_NESTED_FN_DEPTH);
+                break;
+            }
+        }
 
         /* Register nested function in module function table if not already there */
         int32_t fn_idx = fn_find(cg, name);
